@@ -183,7 +183,7 @@ def judgeC17 (o : AppObs) : Verdict :=
 /-- the harmless end-of-datagram quirk of the two RPC signatures (their last symbol is a wildcard that also
     swallows the end pseudo-symbol): a datagram exactly one byte short is identified as RPC; the RPC
     responder never answers anything that short, so no property is affected -/
-def rpcOneShort (s : Bytes) : Option Nat :=
+def rpcOneShortId (s : Bytes) : Option Nat :=
   if s.length = 23 ∧ prefixMatch (rpcCall.take 23) s then some ID_RPC_UDP
   else if s.length = 27 ∧ prefixMatch ((anyN 4 ++ rpcCall).take 27) s then some ID_RPC_TCP
   else none
@@ -192,7 +192,7 @@ def rpcOneShort (s : Bytes) : Option Nat :=
 def judgeC10m (datagram : Bool) (s : Bytes) (id : Option Nat) : Verdict :=
   let expected := if datagram then refDatagram s else refStream s
   if id = expected then pass expected.isSome
-  else if datagram ∧ expected.isNone ∧ id.isSome ∧ id = rpcOneShort s then pass true
+  else if datagram ∧ expected.isNone ∧ id.isSome ∧ id = rpcOneShortId s then pass true
   else if shadowed s then failv s!"[shadowed] matcher says {id}, published signatures say {expected}"
   else failv s!"matcher says {id}, published signatures say {expected}"
 
